@@ -152,8 +152,8 @@ pub async fn do_op(qs: &QueryServer, at: u64, line: &J) -> J {
 // ------------------------------------------------------------------ generation
 const SATTRS: [&str; 8] = ["class", "name", "uuid", "description", "displayname", "member", "entry_managed_by", "memberof"];
 const MATTRS: [&str; 8] = ["description", "displayname", "class", "member", "mail", "name", "entry_managed_by", "legalname"];
-const MCLASSES: [&str; 9] = ["group", "extensibleobject", "system", "recycled", "sync_object", "dyngroup", "tombstone", "account", "person"];
-const CCLASSES: [&str; 8] = ["object", "extensibleobject", "group", "system", "sync_object", "recycled", "account", "dyngroup"];
+const MCLASSES: [&str; 12] = ["group", "extensibleobject", "system", "recycled", "sync_object", "dyngroup", "tombstone", "account", "person", "domain_info", "system_info", "system_config"];
+const CCLASSES: [&str; 11] = ["object", "extensibleobject", "group", "system", "sync_object", "recycled", "account", "dyngroup", "domain_info", "system_info", "system_config"];
 
 fn sub(rng: &mut Rng, pool: &[&str], lo: u64, hi: u64) -> Vec<String> {
     let k = rng.range(lo, hi) as usize;
@@ -247,6 +247,9 @@ fn modlists() -> Vec<J> {
         json!([it("pres", "class", vec!["tombstone"])]),
         json!([it("pres", "class", vec!["sync_object"])]),
         json!([it("pres", "class", vec!["dyngroup"])]),
+        json!([it("pres", "class", vec!["domain_info"])]),
+        json!([it("pres", "class", vec!["system_info"])]),
+        json!([it("pres", "class", vec!["system_config"])]),
         json!([it("rem", "class", vec!["system"])]),
         json!([it("rem", "class", vec!["sync_object"])]),
         json!([it("rem", "class", vec!["dyngroup"])]),
